@@ -162,7 +162,14 @@ def showOutcome : Outcome → String
   | .okExc k => s!"okexc {showKind k}"
   | .err k => s!"err {showKind k}"
 
-def showPayload (p : Payload) : String := s!"{showTP p.tp}={showNats p.sids}"
+def showMsg (m : Msg) : String :=
+  let k := match m.key with | none => "N" | some bs => if bs.isEmpty then "-" else toHex bs
+  let v := match m.value with | none => "n" | some n => toString n
+  s!"{k}.{v}"
+
+/-- `topic/part=sids#key.size,key.size,...`: the sends a payload is made of and the messages it carries -/
+def showPayload (p : Payload) : String :=
+  s!"{showTP p.tp}={showNats p.sids}#{if p.msgs.isEmpty then "-" else ",".intercalate (p.msgs.map showMsg)}"
 
 def showOb : Ob → String
   | .loadMeta rid t => s!"loadmeta {rid} {t}"
@@ -198,9 +205,17 @@ def parseOutcome : List String → Option Outcome
   | ["err", k] => some (.err ((parseKind k).getD (.other 99)))
   | _ => none
 
+def parseWireMsg (s : String) : Option Msg :=
+  match s.splitOn "." with
+  | [k, v] => do some ⟨← parseKey k, ← parseMsg v⟩
+  | _ => none
+
 def parsePayload (s : String) : Option Payload :=
-  match s.splitOn "=" with
-  | [tp, sids] => do some ⟨← parseTP tp, ← parseNats sids⟩
+  match s.splitOn "#" with
+  | [head, ms] =>
+    match head.splitOn "=" with
+    | [tp, sids] => do some ⟨← parseTP tp, ← parseNats sids, ← parseList parseWireMsg "," ms⟩
+    | _ => none
   | _ => none
 
 def parseOb : List String → Option Ob
@@ -253,6 +268,8 @@ def runMonitor (cfg : Cfg) (tr : List Step) (m : String) : String :=
     if m == "c01-once" then some (Afkak.Monitor.C01.atMostOnce cfg tr)
     else if m == "c01-acked" then some (Afkak.Monitor.C01.successAcked cfg tr)
     else if m == "c01-acks0" then some (Afkak.Monitor.C01.acks0 cfg tr)
+    else if m == "c01-emptyanswer" then some (Afkak.Monitor.C01.emptyAnswer cfg tr)
+    else if m == "c09-reported" then some (Afkak.Monitor.C09.reported cfg tr)
     else if m == "c01-payloads" then some (Afkak.Monitor.C01.payloads cfg tr)
     else if m == "c01-resolved" then some (Afkak.Monitor.C01.resolvedFired cfg tr)
     else if m == "c09-order" then some (Afkak.Monitor.C09.order cfg tr)
